@@ -1,6 +1,7 @@
 import Gallia.Proofs.Lemmas.DoipOps
 import Gallia.Proofs.Lemmas.DoipSysCalls
 import Gallia.Proofs.Lemmas.DoipSysAlive
+import Gallia.Proofs.Lemmas.DoipSerial
 import Gallia.Gen.C06Doip
 /-
   C06 — DoIP: frames are demultiplexed correctly under any segmentation and interleaving.
@@ -539,6 +540,41 @@ example :
   refine ⟨h.1, h.2.1, h.2.2.1, ?_⟩
   have := (h.2.2.2.2 5000 0).1
   rwa [List.take_of_length_le (by simp only [data, List.length_replicate]; omega)] at this
+
+/-! ### a second client task blocked in a read
+
+  `read_frame` takes the connection mutex for every frame it waits for and `write_request_raw` holds it from the
+  request to the acknowledgement, so the scan of a blocked reader (`isDiagFor`, skipped frames put back in front) and
+  the acknowledgement wait of a writer (`ackMatch`, same) never consume the queue at the same time: they run one
+  after the other, in the order the mutex is granted. -/
+
+/-- **a blocked reader and a writer are serialised, and the order in which the mutex is granted does not matter.**
+    On any queue `q` (frames in wire order): reader scan then acknowledgement wait gives the same message to the read,
+    the same acknowledgement to the write and leaves the same queue as acknowledgement wait then reader scan - the
+    first target->source message of `q`, the first matching acknowledgement of `q`, and `q` without these two in wire
+    order (`readDiag_delivers`); if one of the two finds nothing, so it does in the other order. -/
+theorem doip_blocked_reader_serialised (c : Cfg) (data : Bytes) (q : List Frame) :
+    ((takeFront (isDiagFor c) q).bind fun y => (takeFront (ackMatch c data) y.2).map fun z => (y.1, z.1, z.2)) =
+    ((takeFront (ackMatch c data) q).bind fun z => (takeFront (isDiagFor c) z.2).map fun y => (y.1, z.1, y.2)) := by
+  apply serial_commute
+  intro x hx
+  cases h : ackMatch c data x with
+  | false => rfl
+  | true => rw [ackMatch_not_diag c data x h] at hx; cases hx
+
+/-- non-vacuity, and what the mutex prevents: on the queue "foreign, acknowledgement, response, unsolicited" both
+    serial orders hand the response `62 F1` to the read and the acknowledgement to the write and leave the rest in
+    wire order; a reader scanning WITHOUT the mutex while the writer waits takes the acknowledgement off the queue as
+    a skipped frame (`findSplit` returns it in the skipped prefix), so the writer's scan of what is left finds none -/
+example :
+    let c : Cfg := ⟨0x0E00, 0x1D, 2⟩
+    let q : List Frame := [.diag 0x1E 0x0E00 [0x7F], .ackPos 0x1D 0x0E00 [], .diag 0x1D 0x0E00 [0x62, 0xF1],
+      .diag 0x1D 0x0E00 [0x6A]]
+    ((takeFront (isDiagFor c) q).bind fun y => (takeFront (ackMatch c [0x22, 0xF1]) y.2).map fun z => (y.1, z.1, z.2)) =
+      some (.diag 0x1D 0x0E00 [0x62, 0xF1], .ackPos 0x1D 0x0E00 [], [.diag 0x1E 0x0E00 [0x7F], .diag 0x1D 0x0E00 [0x6A]]) ∧
+    (findSplit (isDiagFor c) q).map (·.1) = some [.diag 0x1E 0x0E00 [0x7F], .ackPos 0x1D 0x0E00 []] ∧
+    ((findSplit (isDiagFor c) q).bind fun s => takeFront (ackMatch c [0x22, 0xF1]) s.2.2) = none := by
+  decide +kernel
 
 /-! ### whole executions of one connection (`Model/DoipSys.lean`)
 
